@@ -159,6 +159,14 @@ InsertVoice == \E i \in 1..(Len(file) + 1), shp \in ShapeSet :
                  /\ Swap(InsertAt(file, i, [id |-> nextId, shape |-> shp, k |-> 2, chan |-> "B"]), "insert")
                  /\ nextId' = nextId + 1
 DeleteVoice == \E i \in 1..Len(file) : Len(file) > 1 /\ Swap(RemoveAt(file, i), "delete") /\ UNCHANGED nextId
+(* one save that carries two edits: a voice is deleted and a new one inserted elsewhere (the number of voices stays, *)
+(* the survivors change their positions); two voices are deleted at once                                          *)
+DeleteInsert == \E i \in 1..Len(file), j \in 1..Len(file), shp \in ShapeSet :
+                  /\ Len(file) > 1 /\ i # j
+                  /\ Swap(InsertAt(RemoveAt(file, i), j, [id |-> nextId, shape |-> shp, k |-> 2, chan |-> "B"]), "delete_insert")
+                  /\ nextId' = nextId + 1
+DeleteTwo == \E i, j \in 1..Len(file) : i < j /\ Len(file) > 2
+                  /\ Swap(RemoveAt(RemoveAt(file, j), i), "delete_two") /\ UNCHANGED nextId
 ReplaceVoice == \E i \in 1..Len(file), shp \in ShapeSet :
                   /\ shp # file[i].shape
                   /\ Swap([file EXCEPT ![i] = [id |-> nextId, shape |-> shp, k |-> 3, chan |-> "B"]], "replace")
@@ -217,7 +225,7 @@ Callback == \E F \in Frames :
   /\ hist' = Append(hist, [op |-> "cb", frames |-> F])
   /\ UNCHANGED <<nextId, nedits, file>>
 
-Next == Start \/ Tick \/ Callback \/ Resave \/ InnerInsert \/ InnerDelete \/ InsertVoice \/ DeleteVoice \/ ReplaceVoice \/ ChangeConst \/ NestDeeper \/ UnNest \/ BreakCompile
+Next == Start \/ Tick \/ Callback \/ Resave \/ InnerInsert \/ InnerDelete \/ InsertVoice \/ DeleteVoice \/ DeleteInsert \/ DeleteTwo \/ ReplaceVoice \/ ChangeConst \/ NestDeeper \/ UnNest \/ BreakCompile
 Spec == Init /\ [][Next]_vars
 
 (* on the model: the cells of a voice never touched by an edit are those of the uninterrupted run *)
